@@ -1362,7 +1362,7 @@ FAMILIES = {"strtwice": fam_strtwice, "drainbig": fam_drainbig, "nest": fam_nest
             "destroy": fam_destroy, "status": fam_status, "run": fam_run, "stop": fam_stop, "life": fam_life, "poll": fam_poll, "stream": fam_stream, "drain": fam_drain}
 
 PROPS = {
-    "C01": {"families": ["status", "realstatus", "stop", "two", "free"], "title": "exit status exact, stable, reaped once"},
+    "C01": {"families": ["status", "realstatus", "stop", "two", "anyfault", "free"], "title": "exit status exact, stable, reaped once"},
     "C06": {"families": ["stop", "status", "faults", "restart", "two"], "title": "only the own unreaped child is signalled or waited for"},
     "C07": {"families": ["stop", "threads", "free"], "title": "stop sequences"},
     "C03": {"families": ["env", "env2", "faults", "conc", "real"], "title": "launch fidelity: argv, environment, working directory, program resolution"},
